@@ -302,7 +302,10 @@ static void build_ops() {
   {
     size_t lbub[][2] = {{14, 15}, {0, 5}, {1, 10}, {2, 0}, {11, 12}, {15, 14}, {0, 0}, {16, 1}};
     std::vector<long> dd = {1, 2, -1};
-    for (int v = 0; v < std::min(CFG.maxdim, 2); ++v) for (auto& lu : lbub) for (long d : dd) for (int pre = 0; pre < 2; ++pre) {
+    int npairs = 0;
+    for (int v = 0; v < std::min(CFG.maxdim, 2); ++v) { npairs = 0; for (auto& lu : lbub) { ++npairs; for (long d : dd) for (int pre = 0; pre < 2; ++pre) {
+      // quick tier: the first five (lb, ub) pairs (Box::bounded_affine_preimage dies with SIGFPE on most of them; every crash costs a fork)
+      if (!CFG.thorough && npairs > 5) continue;
       ZE lb = EM[lu[0]], ub = EM[lu[1]];
       Op o; o.name = std::string(pre ? "bounded_affine_preimage(" : "bounded_affine_image(") + vname(v) + "," + lb.str() + "," + ub.str() + "," + std::to_string(d) + ")";
       o.args.fam = "bounded"; o.args.v = v; o.args.e = lb; o.args.e2 = ub; o.args.d = d; o.args.pre = pre;
@@ -313,7 +316,7 @@ static void build_ops() {
         return VOID; };
       o.exact = [lb, ub, v, d, pre](const Cell& c, const Cell*) { Cell r = ref::rel_bounded(c.n, v, lb.vec(c.n), lb.q0(), ub.vec(c.n), ub.q0(), Q(d)); return one(pre ? ref::preimage(c, r) : ref::image(c, r)); };
       add_op(o);
-    }
+    } } }
   }
   // unconstrain
   for (int mask = 1; mask < (1 << CFG.maxdim); ++mask) {
